@@ -419,6 +419,11 @@ impl<'b> InputState<'b> {
         self.mode == EditMode::Emacs
     }
 
+    /// Tells if a vi insert / replace session is in progress (`done_inserting` will end it).
+    pub(crate) fn is_inserting(&self) -> bool {
+        self.mode == EditMode::Vi && self.input_mode != InputMode::Command
+    }
+
     /// Parse user input into one command
     /// `single_esc_abort` is used in emacs mode on unix platform when a single
     /// esc key is expected to abort current action.
